@@ -269,7 +269,14 @@ func (k Keeper) UpdateDispute(
 			result = types.VoteResult_NO_QUORUM_MAJORITY_INVALID
 		}
 	default:
-		return errors.New("no majority")
+		// an exact tie between the leading choices: there is no majority for slashing or for the reporter,
+		// so the dispute is settled as invalid. Returning an error here would fail BeginBlock (and halt the
+		// chain) when the tie is found at the end of the voting period.
+		if quorum {
+			result = types.VoteResult_INVALID
+		} else {
+			result = types.VoteResult_NO_QUORUM_MAJORITY_INVALID
+		}
 	}
 	vote.VoteResult = result
 	vote.VoteEnd = sdk.UnwrapSDKContext(ctx).BlockTime()
